@@ -37,5 +37,9 @@ case "${1:-}" in
     if needs_instr "$1"; then
       if build_instr; then BIN=bin/vcheck-instr; else echo "warning: instrumented build failed, running the plain build" >&2; fi
     fi
+    if [ "$1" = C09 ]; then
+      # leg B: the same thread bodies, free-running, under the race detector
+      if go build -race -o bin/vrace ./cmd/vrace 2> bin/build-vrace.log; then export VERIF_VRACE="$(pwd)/bin/vrace"; else cat bin/build-vrace.log >&2; fi
+    fi
     "$BIN" "$1" "${2:-quick}"; exit $?;;
 esac
